@@ -161,16 +161,41 @@ pub fn drive(args: &[String]) -> i32 {
         }
         // random-stream budget block
         let mut sum_words = 0u64; let mut max_words = 0u64; let mut max_us = 0u64; let mut bad = 0u64; let mut outlen = 1usize;
-        let block_calls = if entry_timeouts >= 3 { 3 } else { block_calls };
+        let (mut bmn, mut bmx): (Option<i128>, Option<i128>) = (None, None);
+        let (mut bnan, mut bpinf, mut bninf, mut bnonint, mut bzerow) = (0u64, 0u64, 0u64, 0u64, 0u64);
+        let mut bkind = "f64"; let mut first_bad: Option<String> = None;
+        // integer-valued samplers are cheap and their rare branches need many draws: ten times the block
+        let discrete = ["Binomial", "Hypergeometric", "Poisson", "Geometric", "Zipf", "Zeta", "StandardGeometric"].contains(&e.family) && e.variant != "beyond-E";
+        let block_calls = if entry_timeouts >= 3 { 3 } else if discrete { block_calls * 10 } else { block_calls };
         let jobs: Vec<Job> = (0..block_calls).map(|c| Job { entry: ei, prefix: vec![], seed: seed ^ (0xb10c + c * 104729 + ei as u64 * 31), at: 0, word: 0, mode: 1 }).collect();
         for d in run_batch(jobs, limit_ms, &mut jtx, &mut drx) {
             ncalls += 1;
             sum_words += d.words; max_words = max_words.max(d.words); max_us = max_us.max(d.us);
-            match d.out { Ok(o) => outlen = o.bits.len().max(1), Err(_) => bad += 1 }
+            match d.out {
+                Ok(o) => {
+                    outlen = o.bits.len().max(1); bkind = o.kind;
+                    for &b in &o.bits {
+                        let (ord, cls): (Option<i128>, &str) = match o.kind {
+                            "f32" => { let x = f32::from_bits(b as u32); (if x.is_finite() { Some(x.ord() + (1i128 << 63)) } else { None }, class_of(x)) }
+                            "f64" => { let x = f64::from_bits(b); (if x.is_finite() { Some(x.ord() + (1i128 << 63)) } else { None }, class_of(x)) }
+                            _ => (Some(b as i128), "int"),
+                        };
+                        match cls { "nan" => bnan += 1, "pinf" => bpinf += 1, "ninf" => bninf += 1, _ => {} }
+                        if let Some(v) = ord { bmn = Some(bmn.map_or(v, |m| m.min(v))); bmx = Some(bmx.map_or(v, |m| m.max(v))); }
+                        if ["Zipf", "Zeta", "Poisson"].contains(&e.family) && ord.is_some() && !integral(o.kind, b) { bnonint += 1; }
+                        if e.family.starts_with("Weighted") && !weight_positive(e, b) { bzerow += 1; }
+                    }
+                }
+                Err(p) => { bad += 1; if first_bad.is_none() { first_bad = Some(p.split(" @ ").next().unwrap_or("").to_string()); } }
+            }
         }
         let mut ev = base.clone();
         ev["op"] = json!("block"); ev["calls"] = json!(block_calls); ev["sum_words"] = json!(sum_words.min(2_000_000_000)); ev["max_words"] = json!(max_words.min(2_000_000_000));
         ev["max_us"] = json!(max_us.min(2_000_000_000)); ev["outlen"] = json!(outlen); ev["failed"] = json!(bad);
+        let lim = |o: Option<i128>| -> Vec<i64> { match o { None => vec![0, 0, 0], Some(v) => vec![((v >> 42) & 0x3f_ffff) as i64, ((v >> 21) & 0x1f_ffff) as i64, (v & 0x1f_ffff) as i64] } };
+        ev["min"] = json!(lim(bmn)); ev["max"] = json!(lim(bmx)); ev["hasfin"] = json!(bmn.is_some()); ev["nan"] = json!(bnan); ev["pinf"] = json!(bpinf); ev["ninf"] = json!(bninf);
+        ev["panic"] = json!(bad); ev["nonint"] = json!(bnonint); ev["zerow"] = json!(bzerow); ev["okind"] = json!(bkind); ev["first_bad"] = json!(first_bad.unwrap_or_default());
+        ev["offenders"] = json!([]);
         writeln!(f, "{}", ev).unwrap(); nev += 1;
     }
     drop(jtx);
